@@ -65,6 +65,75 @@ def qi_list(a):
     return ';'.join(f'{frac_str(complex(v).real)},{frac_str(complex(v).imag)}' for v in np.asarray(a).reshape(-1))
 
 
+# ---------------------------------------------------------------------------
+# hardening helpers (input classes: aliasing, dtype, histories, boundaries)
+# ---------------------------------------------------------------------------
+def _snap(x):
+    if hasattr(x, 'detach'):
+        return x.detach().clone()
+    if isinstance(x, np.ndarray):
+        return x.copy()
+    if isinstance(x, (list, tuple)):
+        return type(x)(_snap(y) for y in x)
+    return x
+
+
+def _same(a, b):
+    if hasattr(a, 'detach'):
+        import torch
+        return a.shape == b.shape and a.dtype == b.dtype and bool(torch.equal(a, b))
+    if isinstance(a, np.ndarray):
+        return a.shape == b.shape and a.dtype == b.dtype and np.array_equal(a, b, equal_nan=True)
+    if isinstance(a, (list, tuple)):
+        return len(a) == len(b) and all(_same(x, y) for x, y in zip(a, b))
+    return True
+
+
+def _desc(x):
+    if hasattr(x, 'detach'):
+        return dict(torch=str(x.dtype), shape=list(x.shape), values=np.asarray(x.detach().numpy()).reshape(-1)[:64].tolist().__repr__()[:600])
+    if isinstance(x, np.ndarray):
+        return dict(dtype=str(x.dtype), shape=list(x.shape), contiguous=bool(x.flags.c_contiguous), values=repr(x.reshape(-1)[:64].tolist())[:600])
+    return repr(x)[:200]
+
+
+def checked(ctx, name, fn, *args):
+    """call `fn(*args)` twice on the very same argument objects: no argument may be modified, both results must be identical"""
+    before = [_snap(a) for a in args]
+    r1 = fn(*args)
+    for i, (a, b) in enumerate(zip(args, before)):
+        if not _same(a, b):
+            ctx.fail('mutates-input:' + name, f'{name} modified its argument #{i} in place', dict(op=name, argument=i, args=[_desc(x) for x in before]))
+            return r1
+    r2 = fn(*args)
+    if not _same(np.asarray(r1) if not isinstance(r1, tuple) else tuple(np.asarray(x) for x in r1),
+                 np.asarray(r2) if not isinstance(r2, tuple) else tuple(np.asarray(x) for x in r2)):
+        ctx.fail('not-repeatable:' + name, f'{name} returned different results for two identical calls on the same objects', dict(op=name, args=[_desc(x) for x in before]))
+    return r1
+
+
+def module_constants():
+    """every module-level ndarray of numqi.gate / numqi.gate.pauli / numqi.channel._internal (shared stacks such as the Pauli matrices)"""
+    import numqi
+    out = {}
+    for modname, mod in (('numqi.gate', numqi.gate), ('numqi.gate.pauli', numqi.gate.pauli), ('numqi.channel._internal', numqi.channel._internal),
+                         ('numqi.gate._internal', getattr(numqi.gate, '_internal', None))):
+        if mod is None:
+            continue
+        for k, v in vars(mod).items():
+            if isinstance(v, np.ndarray):
+                out[f'{modname}.{k}'] = (v, v.copy())
+    return out
+
+
+def check_module_constants(ctx, consts, where):
+    for k, (live, orig) in consts.items():
+        if live.shape != orig.shape or live.dtype != orig.dtype or not np.array_equal(live, orig):
+            ctx.fail('module-constant-modified', f'{k} (a module-level constant) was modified in place during {where}',
+                     dict(constant=k, original=repr(orig.tolist())[:300], now=repr(live.tolist())[:300]))
+            live[...] = orig       # restore so that the remaining checks see a sane module
+
+
 @contextlib.contextmanager
 def fake_eigh(evl, evc):
     """make the next np.linalg.eigh call (the one inside choi_op_to_kraus_op) return chosen integer data"""
@@ -168,6 +237,7 @@ def correspondence(ctx):
     ch = numqi.channel
     rng = np.random.default_rng(ctx.np_seed)
     ops, impl = [], []
+    consts = module_constants()
 
     def add(op, f):
         ops.append(op); impl.append(guarded(f))
@@ -212,6 +282,25 @@ def correspondence(ctx):
                 finally:
                     ch._internal.super_op_to_kraus_op = orig
             add(f'C12 hf2s {din} {dout} {gl(G)}', hf2s)
+            # input classes: the same integer data as int64 / float32 (real case) / complex64, Fortran-ordered and strided views; every
+            # call through `checked` (arguments bit-identical afterwards, two calls agree)
+            variants = [('c-f-order', np.asfortranarray(K), np.asfortranarray(rho))]
+            big = np.zeros((n, dout, 2 * din), dtype=K.dtype); big[:, :, ::2] = K
+            variants.append(('strided-view', big[:, :, ::2], rho[::-1, ::-1][::-1, ::-1]))
+            if cplx:
+                variants.append(('complex64', K.astype(np.complex64), rho.astype(np.complex64)))
+            else:
+                variants += [('int64', K.astype(np.int64), rho.astype(np.int64)), ('float32', K.astype(np.float32), rho.astype(np.float32))]
+            for tag, Kv, rv in variants:
+                Cv = ch.kraus_op_to_choi_op(Kv); Sv = ch.kraus_op_to_super_op(Kv)
+                add(f'C12 k2c {n} {dout} {din} {ks}', lambda Kv=Kv: gl(checked(ctx, 'kraus_op_to_choi_op', ch.kraus_op_to_choi_op, Kv)))
+                add(f'C12 k2s {n} {dout} {din} {ks}', lambda Kv=Kv: gl(checked(ctx, 'kraus_op_to_super_op', ch.kraus_op_to_super_op, Kv)))
+                add(f'C12 apk {n} {dout} {din} {ks} {rs}', lambda Kv=Kv, rv=rv: gl(checked(ctx, 'apply_kraus_op', ch.apply_kraus_op, Kv, rv)))
+                add(f'C12 apc {din} {dout} {gl(C)} {rs}', lambda Cv=Cv, rv=rv: gl(checked(ctx, 'apply_choi_op', ch.apply_choi_op, Cv, rv)))
+                add(f'C12 aps {din} {dout} {gl(S)} {rs}', lambda Sv=Sv, rv=rv: gl(checked(ctx, 'apply_super_op', ch.apply_super_op, Sv, rv)))
+                add(f'C12 c2s {din} {dout} {gl(C)}', lambda Cv=Cv: gl(checked(ctx, 'choi_op_to_super_op', ch.choi_op_to_super_op, Cv, din)))
+                add(f'C12 s2c {din} {dout} {gl(S)}', lambda Sv=Sv: gl(checked(ctx, 'super_op_to_choi_op', ch.super_op_to_choi_op, Sv)))
+                ctx.count('variant-' + tag)
             ctx.count(f'dims-{din}x{dout}')
         # choi_op_to_kraus_op with intercepted eigh: ascending integer eigenvalues (some <= 0, the rest perfect squares)
         m = din * dout
@@ -232,6 +321,7 @@ def correspondence(ctx):
         add(f'C12 depol {bits(np.sqrt(1 - 3 * p / 4))} {bits(np.sqrt(p / 4))}', lambda: qi_list(ch.hf_depolarizing_kraus_op(p)))
         add(f'C12 ampd {bits(np.sqrt(1 - p))} {bits(np.sqrt(p))}', lambda: qi_list(ch.hf_amplitude_damping_kraus_op(p)))
         ctx.count('noise-rate')
+    check_module_constants(ctx, consts, 'the conversion / apply calls of the exact tie')
     model = common.run_model(ops)
 
     def nontrivial(op, out):
@@ -481,10 +571,113 @@ def probe(ctx):
                 ctx.fail('noise-cptp:' + name, f'{name} channel at rate {p} is not CPTP (|sum K^dag K - 1| = {maxdiff(gram, np.eye(2)):.3e})', info)
             else:
                 ctx.probe_ok(('noise', name, p))
+    probe_hardening(ctx, rng)
     ctx.extra['probe_worst'] = {k: float(v) for k, v in worst.items()}
     ctx.assumptions.append('probe tolerances: 1e-9 for equivalence of representations and for the inequalities on full-rank states; 1e-6 where a '
                            'square root of a rounding-level eigenvalue enters (fidelity with a rank-deficient input or output state: sqrt(2.2e-16*d) ~ 3e-8 per zero eigenvalue, up to 5 of them, doubled by the final squaring; worst observed 3e-8); '
                            'relative entropy monotonicity asserted whenever the image of the second argument is full rank (min eigenvalue > 1e-6); for a rank-deficient second argument the code evaluates S(rho||max(sigma,eps)), for which monotonicity holds up to eps*d/lambda_min < 1e-8 (tolerance 1e-7 relative)')
+
+
+def probe_hardening(ctx, rng):
+    """aliasing of every public function, module-level constants, constructor histories, boundary spectra for the metrics"""
+    import numqi, torch
+    ch = numqi.channel; U = numqi.utils
+    consts = module_constants()
+    # (1) every conversion / apply / metric call leaves its arguments untouched and is repeatable (numpy, torch, views)
+    for rep in range(4 if ctx.quick() else 24):
+        din = int(rng.integers(1, 4)); dout = int(rng.integers(1, 4)); seed = int(rng.integers(1 << 30))
+        try:
+            K = numqi.random.rand_kraus_op(max(1, -(-din // dout), int(rng.integers(1, 4))), din, dout, seed=seed)
+            rho = rand_state(rng, din, 'full'); sig = rand_state(rng, din, 'low')
+            C = checked(ctx, 'kraus_op_to_choi_op', ch.kraus_op_to_choi_op, K)
+            S = checked(ctx, 'kraus_op_to_super_op', ch.kraus_op_to_super_op, K)
+            checked(ctx, 'kraus_op_to_choi_op[torch]', ch.kraus_op_to_choi_op, torch.tensor(K))
+            checked(ctx, 'choi_op_to_kraus_op', ch.choi_op_to_kraus_op, C, din)
+            checked(ctx, 'super_op_to_kraus_op', ch.super_op_to_kraus_op, S)
+            checked(ctx, 'choi_op_to_super_op', ch.choi_op_to_super_op, C, din)
+            checked(ctx, 'super_op_to_choi_op', ch.super_op_to_choi_op, S)
+            checked(ctx, 'apply_kraus_op', ch.apply_kraus_op, K, rho)
+            checked(ctx, 'apply_choi_op', ch.apply_choi_op, C, rho)
+            checked(ctx, 'apply_choi_op[torch]', ch.apply_choi_op, torch.tensor(C), torch.tensor(rho))
+            checked(ctx, 'apply_super_op', ch.apply_super_op, S, rho)
+            checked(ctx, 'hf_channel_to_choi_op', lambda KK: ch.hf_channel_to_choi_op(lambda r: ch.apply_kraus_op(KK, r), din), K)
+            checked(ctx, 'hf_channel_to_kraus_op', lambda KK: ch.hf_channel_to_kraus_op(lambda r: ch.apply_kraus_op(KK, r), din), K)
+            if din >= 2 and dout >= 2:
+                checked(ctx, 'choi_op_to_bloch_map', ch.choi_op_to_bloch_map, C.reshape(din, dout, din, dout))
+            for nm, fn, args in (('get_fidelity', U.get_fidelity, (rho, sig)), ('get_trace_distance', U.get_trace_distance, (rho, sig)),
+                                 ('get_relative_entropy', U.get_relative_entropy, (sig, rho)), ('get_von_neumann_entropy', U.get_von_neumann_entropy, (rho,)),
+                                 ('get_purity', U.get_purity, (rho,))):
+                checked(ctx, nm, fn, *args)
+                checked(ctx, nm + '[F-order]', fn, *[np.asfortranarray(a) for a in args])
+                if nm != 'get_trace_distance':
+                    checked(ctx, nm + '[torch]', fn, *[torch.tensor(a) for a in args])
+            # an object returned by one call is the input of the next
+            out = ch.apply_kraus_op(K, rho)
+            out2 = checked(ctx, 'apply_choi_op(output of kraus_op_to_choi_op)', ch.apply_choi_op, C, rho)
+            if maxdiff(out, out2) > TOL:
+                ctx.fail('channel-equivalence:reuse', 'apply_choi_op on the object returned by kraus_op_to_choi_op differs from apply_kraus_op', dict(din=din, dout=dout, seed=seed))
+            ctx.probe_ok(('alias', din, dout, seed))
+        except Exception as e:
+            ctx.fail('hardening-raises', f'{type(e).__name__}: {e}', dict(op='aliasing-sweep', din=din, dout=dout, seed=seed))
+    check_module_constants(ctx, consts, 'conversion / apply / metric calls')
+    # (2) histories: noise-channel constructors called repeatedly, in different orders, results vandalised in between
+    ref = {}
+    order = [('deph', 0.3), ('depol', 0.3), ('ampd', 0.3), ('depol', 0.9), ('deph', 0.3), ('ampd', 0.0), ('depol', 0.3), ('ampd', 0.3), ('deph', 1.0), ('depol', 0.9), ('deph', 0.3)]
+    fns = dict(deph=ch.hf_dephasing_kraus_op, depol=ch.hf_depolarizing_kraus_op, ampd=ch.hf_amplitude_damping_kraus_op)
+    for step, (nm, p) in enumerate(order):
+        try:
+            K = np.asarray(fns[nm](p))
+            if (nm, p) in ref and not (K.shape == ref[(nm, p)].shape and np.array_equal(K, ref[(nm, p)])):
+                ctx.fail('noise-history', f'{nm} channel at rate {p} returned different Kraus operators at call #{step} of a history of constructor calls',
+                         dict(op='constructor-history', sequence=order, failing_step=step))
+                break
+            ref.setdefault((nm, p), K.copy())
+            gram = sum(k.conj().T @ k for k in K.astype(np.complex128))
+            if maxdiff(gram, np.eye(2)) > 1e-14:
+                ctx.fail('noise-cptp:' + nm, f'{nm} channel at rate {p} is not trace preserving at call #{step} of a history', dict(op='constructor-history', sequence=order, failing_step=step)); break
+            K *= 7.0            # vandalise what was returned (a shared module-level stack would be corrupted by this)
+            K += 1.0
+            check_module_constants(ctx, consts, f'{nm}({p}) (call #{step}) / in-place modification of its return value')
+        except Exception as e:
+            ctx.fail('noise-raises', f'{nm}({p}): {type(e).__name__}: {e}', dict(op='constructor-history', sequence=order, failing_step=step)); break
+    else:
+        ctx.probe_ok(('noise-history',))
+    # (3) boundaries: near-degenerate spectra (gaps 0, 1e-12, 1e-8), points close to the maximally mixed state, rank-deficient states
+    for d in (2, 3, 4):
+        Q = numqi.random.rand_haar_unitary(d, seed=int(rng.integers(1 << 30)))
+        mm = np.eye(d) / d
+        cases = []
+        for gap in (0.0, 1e-12, 1e-8):
+            ev = np.linspace(1, 2, d); ev[1] = ev[0] + gap; ev /= ev.sum()
+            cases.append((f'gap={gap:g}', (Q * ev) @ Q.conj().T))
+        for eps in (1e-6, 1e-9, 1e-12):
+            H = rng.normal(size=(d, d)); H = H + H.T; H -= np.trace(H) / d * np.eye(d)
+            cases.append((f'mm+{eps:g}', mm + eps * H / np.linalg.norm(H)))
+        ev = np.zeros(d); ev[0] = 1.0
+        cases.append(('pure', (Q * ev) @ Q.conj().T))
+        ev = np.ones(d); ev[-1] = 0.0; ev /= ev.sum()
+        cases.append(('rank d-1', (Q * ev) @ Q.conj().T))
+        for tag, r in cases:
+            r = (r + r.conj().T) / 2
+            info = dict(op='metric-boundary', dim=d, case=tag, rho=repr(np.round(r, 14).tolist())[:500])
+            try:
+                s_ = U.get_von_neumann_entropy(r); st = float(U.get_von_neumann_entropy(torch.tensor(r)))
+                f_ = U.get_fidelity(r, r); t_ = U.get_trace_distance(r, r); fm = U.get_fidelity(r, mm); fm2 = U.get_fidelity(mm, r)
+                rel = U.get_relative_entropy(r, mm)
+                bad = []
+                if not (-TOL <= s_ <= np.log(d) + TOL) or abs(s_ - st) > TOL: bad.append(f'entropy {s_:.12g} (torch {st:.12g}) outside [0, log {d}]')
+                if abs(f_ - 1) > TOL_SQRT: bad.append(f'F(rho,rho) = {f_:.12g}')
+                if abs(t_) > TOL: bad.append(f'T(rho,rho) = {t_:.3g}')
+                if abs(fm - fm2) > TOL_SQRT or not (-TOL <= fm <= 1 + TOL_SQRT): bad.append(f'F(rho,1/d) = {fm:.12g} vs {fm2:.12g}')
+                if abs(rel - (np.log(d) - s_)) > 1e-8: bad.append(f'S(rho||1/d) = {rel:.12g} != log d - S = {np.log(d) - s_:.12g}')
+                if not all(np.isfinite([s_, st, f_, t_, fm, rel])): bad.append('non-finite value')
+            except Exception as e:
+                ctx.fail('metric-boundary-raises', f'{type(e).__name__}: {e} ({tag}, d={d})', info); continue
+            if bad:
+                ctx.fail('metric-boundary', f'{bad[0]} for a state with {tag} (d={d})', dict(info, failed=bad))
+            else:
+                ctx.probe_ok(('boundary', d, tag))
+    check_module_constants(ctx, consts, 'the metric calls')
 
 
 def search(ctx, hints):
